@@ -902,7 +902,8 @@ def _c18() -> List[Obl]:
                    ("short_sink_be", ["vbyte_write_be (sink accepting 1..=len bytes per call)"]), ("short_sink_le", ["vbyte_write_le (sink accepting 1..=len bytes per call)"]),
                    ("short_sink_generic_be", ["vbyte_write::<BE> (short-write sink)"]), ("short_sink_generic_le", ["vbyte_write::<LE> (short-write sink)"]),
                    ("complete_be", ["vbyte_read_be", "vbyte_write_be"]), ("complete_le", ["vbyte_read_le", "vbyte_write_le"])):
-        out.append(Obl(id=f"c18.{h}", prop="C18", engine="kani", target=f"obl_c18::{h}", fns=["codes::vbyte::" + f for f in fns]))
+        out.append(Obl(id=f"c18.{h}", prop="C18", engine="kani", target=f"obl_c18::{h}", fns=["codes::vbyte::" + f for f in fns],
+                       tier="thorough" if h.startswith("short_sink_generic") else "quick"))
     # the bit-stream codes against the same definition (C04) and the length function (C06)
     for hm, E in (("hbe", "BE"), ("hle", "LE")):
         for h in ("def_vbyte_be", "def_vbyte_le", "rt_vbyte_be", "rt_vbyte_le", "len_vbyte"):
